@@ -8,8 +8,8 @@
 # ASAN_OPTIONS=detect_leaks=0:abort_on_error=1.  A sanitizer report aborts the process: the exit
 # status is passed on, `check` names the announced case that has no answer; the head of the report
 # (kind of error, access size, top frames, SUMMARY) is printed last so that it lands in the replay.
-# With C06_VALGRIND=1 (thorough tier only) the same stream is run a second time, uninstrumented,
-# under valgrind memcheck.
+# In the thorough tier the quick-sized stream is run a second time by the UNINSTRUMENTED harness under
+# valgrind memcheck (C06_VALGRIND=0 skips it).
 set -u
 ROOT=$(cd "$(dirname "$0")/.." && pwd)
 REPO=${LMV_REPO:-/repo}
@@ -61,22 +61,29 @@ if [ $RC -ne 0 ]; then
   exit $RC
 fi
 
-if [ "${C06_VALGRIND:-0}" = "1" ] && [ "$TIER" = "thorough" ] && command -v valgrind > /dev/null; then
-  # second observer: the uninstrumented harness (built by a plain check run) under memcheck, on the
-  # corpus-sized quick stream (memcheck is ~30x slower)
-  PLAIN="$ROOT/.build/harness-target/release/lmv-harness"
-  if [ -x "$PLAIN" ]; then
-    VOUT="$OUT-valgrind"
-    valgrind -q --error-exitcode=97 --undef-value-errors=no "$PLAIN" c06 --tier quick --seed 1 --out "$VOUT" --boost 1 > "$OUT/valgrind.log" 2>&1
-    VRC=$?
-    if [ $VRC -ne 0 ]; then
-      echo "c06_runner: valgrind reported errors (status $VRC)"
-      head -n 30 "$OUT/valgrind.log"
-      cp "$VOUT/cases.txt" "$OUT/cases.txt" 2> /dev/null
-      cp "$VOUT/impl.txt" "$OUT/impl.txt" 2> /dev/null
-      cp "$VOUT/oracle.txt" "$OUT/oracle.txt" 2> /dev/null
-      exit $VRC
-    fi
+if [ "${C06_VALGRIND:-1}" = "1" ] && [ "$TIER" = "thorough" ] && command -v valgrind > /dev/null; then
+  # second observer (thorough tier; C06_VALGRIND=0 skips it): the UNINSTRUMENTED harness under valgrind
+  # memcheck on the quick-sized stream of the same seed (memcheck is ~50x slower).  The process is
+  # stopped at the first error so that the announced case without an answer names the input.
+  PLAIN_TARGET="$ROOT/.build/c06-plain-target"
+  (
+    flock 9
+    cd "$ROOT/harness" || exit 3
+    CARGO_TARGET_DIR="$PLAIN_TARGET" CARGO_NET_OFFLINE=true cargo build --offline --release > "$ROOT/.build/c06-plain-build.log" 2>&1 \
+      || { echo "c06_runner: plain build for valgrind failed:"; tail -n 30 "$ROOT/.build/c06-plain-build.log"; exit 3; }
+  ) 9> "$ROOT/.build/asan.lock" || exit 3
+  VOUT="$OUT/valgrind"
+  VARGS=$(echo "$ARGS" | sed -E 's/--tier +thorough/--tier quick/; s#--out +[^ ]+#--out '"$VOUT"'#')
+  # shellcheck disable=SC2086
+  RUST_BACKTRACE=0 valgrind -q --error-exitcode=97 --exit-on-first-error=yes --undef-value-errors=no \
+    "$PLAIN_TARGET/release/lmv-harness" $VARGS > "$OUT/valgrind.log" 2>&1
+  VRC=$?
+  if [ $VRC -ne 0 ]; then
+    echo "c06_runner: valgrind memcheck of the uninstrumented harness exited with status $VRC"
+    cp "$VOUT/cases.txt" "$VOUT/impl.txt" "$VOUT/oracle.txt" "$OUT/" 2> /dev/null
+    grep -E "Invalid (read|write)|Address 0x|  (at|by) 0x" "$OUT/valgrind.log" | head -n 8 | cut -c 1-200
+    echo "valgrind: $(grep -E 'Invalid (read|write)' "$OUT/valgrind.log" | head -n 1 | sed -E 's/^==[0-9]+== //') in $(grep -E ' at 0x' "$OUT/valgrind.log" | head -n 1 | sed -E 's/^==[0-9]+== +at 0x[0-9A-F]+: //' | cut -c 1-160)"
+    exit $VRC
   fi
 fi
 exit 0
